@@ -60,4 +60,12 @@ def Method.addrAtT (lo hi : Int) (m : Method) (base : Int) (idx : Nat) : Option 
       if fitsT lo hi v then some v else none
     else none
 
+/-- A chain of accessor calls with every step computed in the internal type. -/
+def evalChainT (lo hi : Int) : List (Method × Nat) → Int → Option Int
+  | [], base => some base
+  | (m, i) :: rest, base =>
+    match m.addrAtT lo hi base i with
+    | none => none
+    | some a => evalChainT lo hi rest a
+
 end DDV.Gen
